@@ -177,6 +177,17 @@ def cli_build(case):
             raise ValueError(op)
     e = case['ending']
     ph['act'] = ['% {PY} {PROBE} {OBS}/act']
+    conf = []
+    actor = case.get('actor', 'command')
+    if e in ('hard_act', 'timeout_act') or case.get('shell_act'):
+        actor = 'command'
+    if actor == 'source':
+        # the act phase is source code for an interpreter: Exactly has to store it somewhere (not in tmp/)
+        conf = ['actor = source /bin/sh']
+        ph['act'] = ['# the action to check is the probe', 'exec {PY} {PROBE} {OBS}/act']
+    elif actor == 'file':
+        conf = ['actor = file /bin/sh']
+        ph['act'] = ['act-script.sh']
     if case.get('shell_act'):
         ph['act'] = ['$ exit %d' % case['code']]
     ph['assert'].append('exit-code == %d' % case['code'])
@@ -203,7 +214,7 @@ def cli_build(case):
     # observation of the final state: first thing cleanup does (cleanup runs whenever a sandbox exists)
     ph['cleanup'].insert(0, '$ cp -r @[EXACTLY_RESULT]@ {OBS}/result-copy; cp -r @[EXACTLY_TMP]@ {OBS}/tmp-copy; '
                             'ls -A @[EXACTLY_ACT]@/.. | sort > {OBS}/ls1')
-    lines = []
+    lines = (['[conf]'] + conf + ['']) if conf else []
     for p in ['setup', 'act', 'before-assert', 'assert', 'cleanup']:
         lines.append('[%s]' % p)
         lines += ph[p]
@@ -214,6 +225,12 @@ def cli_build(case):
 def _reached(case, phase):
     """Was the given phase's op list executed (completely)?"""
     e = case['ending']
+    if case.get('act_mode') and not case['keep']:
+        # --act: [before-assert] and [assert] are skipped
+        if phase in ('before-assert', 'assert'):
+            return False
+        if e in ('fail', 'hard_before-assert', 'hard_assert'):
+            e = 'pass'
     order = ['setup', 'act', 'before-assert', 'assert', 'cleanup']
     stop_after = {'pass': None, 'fail': None, 'hard_setup': 'setup', 'timeout_setup': 'setup',
                   'stdin_missing': 'setup', 'hard_act': 'setup', 'timeout_act': 'setup',
@@ -228,8 +245,9 @@ def _reached(case, phase):
 def check_cli(case) -> Verdict:
     text, tmp_files, act_files = cli_build(case)
     e = case['ending']
+    act_mode = bool(case.get('act_mode')) and not case['keep']
     keep = case['keep']
-    argv = (['--keep'] if keep else []) + ['t.case']
+    argv = (['--keep'] if keep else []) + (['--act'] if act_mode else []) + ['t.case']
     exp_ident = {'pass': 'PASS', 'fail': 'FAIL'}.get(e, 'HARD_ERROR')
     exp_idents = {exp_ident}
     if case.get('cleanup_fails'):
@@ -238,6 +256,7 @@ def check_cli(case) -> Verdict:
     act_ran = e in ('pass', 'fail', 'hard_before-assert', 'hard_assert', 'hard_cleanup')
     with driver.Workspace() as ws:
         ws.write('t.case', text)
+        ws.write('act-script.sh', 'exec {PY} {PROBE} {OBS}/act\n')
         ws.probe_cfg('act', exit=case['code'], stdout=case['out'], stderr=case['err'])
         r = driver.run_inproc(ws, argv, extra_env={'VERIF_C04_PRESET': 'preset'}, timeout_s=60)
         obs = {}
@@ -257,6 +276,9 @@ def check_cli(case) -> Verdict:
     ident = (r.first_err_line if keep else r.first_out_line)
     polluting = [op for _, op in case['ops'] if op not in ('tmp_file', 'act_file')]
     labels = ['cli', 'cli-ending:' + e, 'cli-keep:%s' % keep] + ['cli-op:' + op for _, op in case['ops']]
+    labels.append('cli-actor:' + case.get('actor', 'command'))
+    if act_mode:
+        labels.append('cli-mode:--act')
     rm_cwd = bool(case.get('rm_cwd_at_end')) and e != 'hard_cleanup' and not case.get('cleanup_fails')
     if rm_cwd:
         labels.append('cli-current-directory-removed-at-end')
@@ -281,7 +303,11 @@ def check_cli(case) -> Verdict:
         return bad('exception-escaped')
     if r.timed_out:
         return Verdict(inconclusive=True, labels=labels)
-    if ident not in exp_idents:
+    if act_mode:
+        # --act: the outcome of the action passes through, [before-assert]/[assert] are skipped (what is printed is
+        # C02's subject); the life cycle of the sandbox and of the process state is the same
+        pass
+    elif ident not in exp_idents:
         return bad('unexpected-verdict')
     if r.cwd_changed is not None:
         return bad('cwd-of-process-changed')
@@ -312,7 +338,11 @@ def check_cli(case) -> Verdict:
     if obs['tmp'] != exp_tmp:
         detail['expected_tmp'] = exp_tmp
         return bad('tmp-dir-touched')
-    if act_ran:
+    if act_ran and act_mode:
+        # --act: the outcome of the action goes to the std files of Exactly instead (C02); result/ gets nothing else
+        if set(obs['result'] or {}) - {'exit-code', 'stderr', 'stdout'}:
+            return bad('result-dir-entries')
+    elif act_ran:
         res = obs['result'] or {}
         if sorted(res) != ['exit-code', 'stderr', 'stdout']:
             return bad('result-dir-entries')
@@ -361,6 +391,8 @@ def cli_cases(draw, allow_timeouts=True):
     return {'ops': [list(o) for o in ops], 'ending': ending, 'keep': draw(st.booleans()),
             'cleanup_fails': draw(st.integers(0, 3)) == 0,
             'rm_cwd_at_end': draw(st.integers(0, 4)) == 0,
+            'actor': draw(st.sampled_from(['command', 'command', 'source', 'file'])),
+            'act_mode': draw(st.integers(0, 3)) == 0,
             'code': draw(st.sampled_from([0, 1, 2, 7, 127, 255]) | st.integers(0, 255)),
             'out': draw(_text), 'err': draw(_text)}
 
